@@ -409,18 +409,69 @@ def _shape(ctx, m):
     except AnalysisError as e:
         ctx.error('C12.D3', str(e))
         return
-    tmpl = None
+    # the string handed to _FnWrapper (and from there to exec): a tree of % / + over constants, the generated
+    # name and the joined fragments -- anything else is text that reaches exec unfiltered
+    wrap = [n for n in walk_no_nested(cf) if isinstance(n, ast.Call) and norm(n.func) == '_FnWrapper' and len(n.args) == 2]
+    if not wrap or not all(isinstance(a, ast.Name) for a in wrap[0].args):
+        ctx.error('C12.D3', '_FnWrapper(name, template) call not found in _filter_function')
+        return
+    name_var, tmpl_var = wrap[0].args[0].id, wrap[0].args[1].id
+    assigns = {}
     for n in walk_no_nested(cf):
-        if isinstance(n, ast.Assign) and norm(n.targets[0]) == 'function_template':
-            tmpl = n
-    want = "'def %s(_grid, _entity):\\n  return ' % fun_name + ''.join(def_filter)"
-    if tmpl is not None and norm(tmpl.value) == want:
-        ctx.ob('C12.D3', 'the generated source is one def with a single `return <expr>` line', True,
-               '%s:%d' % (F, tmpl.lineno))
-    elif tmpl is not None:
-        ctx.error('C12.D3', 'function template changed: %s' % norm(tmpl.value))
+        if isinstance(n, ast.Assign) and len(n.targets) == 1 and isinstance(n.targets[0], ast.Name):
+            assigns.setdefault(n.targets[0].id, []).append(n)
+    frag_vars = {k for k, v in assigns.items() if any(isinstance(a.value, ast.Call) and norm(a.value.func) ==
+                                                      '_generate_filter_in_python' for a in v)}
+    params = {a.arg for a in cf.args.args}
+    tmpl = assigns.get(tmpl_var, [None])[-1]
+    problems = []
+    consts = []
+
+    def leaves(e):
+        if isinstance(e, ast.BinOp) and isinstance(e.op, (ast.Mod, ast.Add)):
+            leaves(e.left)
+            if isinstance(e.right, ast.Tuple):
+                for x in e.right.elts:
+                    leaves(x)
+            else:
+                leaves(e.right)
+            return
+        if isinstance(e, ast.Constant) and isinstance(e.value, str):
+            consts.append(e.value)
+            return
+        if isinstance(e, ast.Name) and e.id == name_var:
+            return
+        if isinstance(e, ast.Call) and isinstance(e.func, ast.Attribute) and e.func.attr == 'join' \
+                and isinstance(e.func.value, ast.Constant) and e.args and norm(e.args[0]) in frag_vars:
+            return
+        if isinstance(e, ast.Name) and e.id in params:
+            problems.append(('raw', e))
+            return
+        problems.append(('unknown', e))
+
+    if tmpl is None:
+        ctx.error('C12.D3', 'assignment of the exec template (%s) not found' % tmpl_var)
     else:
-        ctx.error('C12.D3', 'function_template assignment not found')
+        leaves(tmpl.value)
+        raw = [e for k, e in problems if k == 'raw']
+        unk = [e for k, e in problems if k == 'unknown']
+        if raw:
+            ctx.violation('C12.D3', '%s::_filter_function' % F, norm(tmpl),
+                          'the raw filter text `%s` is formatted into the source handed to exec: the filter  a ==\\n'
+                          'eval("__import__(\'os\').system(\'id\')")  is a valid filter (white space between tokens may be a '
+                          'line break), and whatever follows the line break leaves the comment/position it was put in and is '
+                          'executed as module-level code' % norm(raw[0]),
+                          'text taken from the filter (parameter `%s`) reaches exec without passing through the parser and '
+                          'repr()' % norm(raw[0]), file=F, line=tmpl.lineno, engine='E10')
+        elif unk:
+            ctx.error('C12.D3', 'exec template contains an unrecognised part: %s' % norm(unk[0]))
+        else:
+            text = ''.join(consts)
+            if text.count('def ') == 1 and text.count('return ') == 1 and 'import' not in text and ';' not in text:
+                ctx.ob('C12.D3', 'the generated source is one def with a single `return <expr>` line; only the generated '
+                                 'name and the joined fragments are formatted into it', True, '%s:%d' % (F, tmpl.lineno))
+            else:
+                ctx.error('C12.D3', 'constant parts of the exec template not recognised: %r' % text)
     # what is parsed is what was asked: def_filter built from parse_filter(filter)._head
     gen_calls = [n for n in walk_no_nested(cf) if isinstance(n, ast.Call) and norm(n.func) == '_generate_filter_in_python']
     if gen_calls and norm(gen_calls[0].args[0]) == 'parse_filter(%s)._head' % cf.args.args[0].arg:
